@@ -222,6 +222,90 @@ theorem not_stuck (n B : Nat) (hn : 0 < n) (sched : List Action)
   | none => rfl
   | some s' => exact absurd ⟨a, by simp [hs]⟩ h
 
+/-! ## bounded channels: the same order, and still no deadlock
+
+Go's channels are bounded (`numChanels = 10 / n` slots; for more than ten decoders none: a send then completes only
+when its receiver takes). A bounded queue only disables steps, so every bounded schedule is one of the schedules
+above and the order theorem applies. Progress is NOT inherited — fewer enabled steps could mean new stuck states —
+and is proved separately: with room for at least one item per queue (an unbuffered channel counts as one: the
+item in the sender's hand) some step is always enabled while a block is missing. -/
+
+/-- one step with at most `cap` items per input and output queue -/
+def stepB (n B cap : Nat) (s : PState) (a : Action) : Option PState :=
+  match a with
+  | .read => if (s.inputs s.rr).length < cap then step n B s .read else none
+  | .finish w => if (s.outputs w).length < cap then step n B s (.finish w) else none
+  | a => step n B s a
+
+theorem stepB_is_step (n B cap : Nat) (s s' : PState) (a : Action) (h : stepB n B cap s a = some s') :
+    step n B s a = some s' := by
+  unfold stepB at h
+  cases a with
+  | read => simp only at h; split at h; exact h; cases h
+  | finish w => simp only at h; split at h; exact h; cases h
+  | take w => exact h
+  | emit => exact h
+
+def runB (n B cap : Nat) (s : PState) : List Action → PState
+  | [] => s
+  | a :: as => runB n B cap ((stepB n B cap s a).getD s) as
+
+theorem inv_runB (n B cap : Nat) (hn : 0 < n) : ∀ (sched : List Action) (s : PState), Inv n s → s.next ≤ B →
+    Inv n (runB n B cap s sched) ∧ (runB n B cap s sched).next ≤ B := by
+  intro sched
+  induction sched with
+  | nil => intro s hi hb; exact ⟨hi, hb⟩
+  | cons a as ih =>
+    intro s hi hb
+    simp only [runB]
+    cases h : stepB n B cap s a with
+    | none => simpa using ih s hi hb
+    | some s' =>
+      have hs := stepB_is_step n B cap s s' a h
+      simpa using ih s' (inv_step n B hn s s' a hi hs) (step_next_le n B s s' a hs hb)
+
+/-- **bounded channels, every schedule**: file order, nothing lost, duplicated or swapped -/
+theorem order_under_every_bounded_schedule (n B cap : Nat) (hn : 0 < n) (sched : List Action) :
+    ∃ m, (runB n B cap init sched).emitted = List.range m ∧ m ≤ B := by
+  obtain ⟨hi, hb⟩ := inv_runB n B cap hn sched init (inv_init n) (by simp [init])
+  exact ⟨_, hi.emitted, Nat.le_trans hi.le hb⟩
+
+/-- **bounded channels, no deadlock**: with at least one slot per queue, in every reachable state in which a block
+    is still missing some step is enabled — the serializer can forward the block it waits for, or the decoder that
+    holds it can finish or take it (its output queue is empty: everything older has been forwarded), or the reader
+    can read (the queue it is about to use is empty) -/
+theorem not_stuck_bounded (n B cap : Nat) (hn : 0 < n) (hcap : 0 < cap) (sched : List Action)
+    (hm : (runB n B cap init sched).emitted.length < B) : ∃ a, (stepB n B cap (runB n B cap init sched) a).isSome = true := by
+  obtain ⟨⟨hle, hem, hsr, hrr, hheld⟩, hb⟩ := inv_runB n B cap hn sched init (inv_init n) (by simp [init])
+  generalize runB n B cap init sched = s at *
+  have hsrlt : s.sr < n := by rw [hsr]; exact Nat.mod_lt _ hn
+  rcases Nat.lt_or_ge s.emitted.length s.next with hlt | hge
+  · -- the block the serializer waits for has been read: decoder `sr` holds it, at the front
+    have hh := hheld s.sr hsrlt
+    rw [hsr, owed_head n _ _ hlt] at hh
+    rw [← hsr] at hh
+    cases ho : s.outputs s.sr with
+    | cons b rest => exact ⟨.emit, by simp [stepB, step, ho]⟩
+    | nil =>
+      cases hbz : s.busy s.sr with
+      | some b => exact ⟨.finish s.sr, by simp [stepB, step, ho, hcap, hsrlt, hbz]⟩
+      | none =>
+        simp only [held, ho, hbz, Option.toList_none, List.nil_append] at hh
+        cases hi : s.inputs s.sr with
+        | nil => rw [hi] at hh; cases hh
+        | cons b rest => exact ⟨.take s.sr, by simp [stepB, step, hsrlt, hbz, hi]⟩
+  · -- everything read has been forwarded: the reader's next queue is empty
+    have hnext : s.next < B := by omega
+    have hrrlt : s.rr < n := by rw [hrr]; exact Nat.mod_lt _ hn
+    have hh := hheld s.rr hrrlt
+    have he : s.emitted.length = s.next := by omega
+    rw [he, owed_empty] at hh
+    have hin : s.inputs s.rr = [] := by
+      simp only [held] at hh
+      have := List.append_eq_nil_iff.mp hh
+      exact this.2
+    exact ⟨.read, by simp [stepB, step, hin, hcap, hnext]⟩
+
 /-! ## the shape of the pipeline in the source -/
 
 def segment (body : List String) (start stop : String) : List String :=
@@ -255,6 +339,8 @@ theorem pipeline_shape :
 /-! ## non-vacuity -/
 example : (run 3 5 init [.read, .read, .read, .take 1, .finish 1, .take 0, .read, .take 2, .finish 2, .finish 0, .emit, .emit, .emit,
     .read, .take 0, .take 1, .finish 1, .finish 0, .emit, .emit]).emitted = [0, 1, 2, 3, 4] := by decide
+example : (runB 3 5 1 init [.read, .read, .read, .read, .take 0, .read, .finish 0, .emit, .take 0, .finish 0, .take 1, .finish 1, .emit]).emitted = [0, 1] := by
+  decide   -- one slot per queue: the fourth read (queue 0 full) is not enabled and is skipped
 example : (run 3 5 init [.read, .read, .take 1, .finish 1, .emit]).emitted = [] := by decide   -- block 1 is ready, block 0 is not
 
 end OsmVerif.Props.C02
